@@ -845,3 +845,36 @@ def fc3d_model(rng):
   tm = S.TensorMapT(); tm.name = b'y'; tm.tensorIndex = int(last); sd.outputs.append(tm)
   mb.m.signatureDefs.append(sd)
   return mb.finish(), {'n_subgraphs': 1, 'ops': [len(gb.g.operators)]}
+
+
+def fc3d_tied_model(rng, n_readers=2):
+  """x[1,S,K] -> n FULLY_CONNECTED(keepNumDims) ops reading ONE weight tensor: the
+  op-replacement (emulated sub-channel / BLOCKWISE) transformation rewrites the
+  weight in place and replaces ONE consumer"""
+  mb = ModelBuilder(rng, name_style=0)
+  gb = GraphBuilder(mb, 0, 'serving_default')
+  s_, k_, n_ = rng.choice([1, 2, 3]), rng.choice([8, 16]), rng.choice([2, 4])
+  x = gb.act('serving_default_x', (1, s_, k_))
+  gb.g.inputs.append(x)
+  w = gb.fconst('serving_default/shared/w', [n_, k_], kind='normal')
+  outs = []
+  for i in range(n_readers):
+    out = gb.act(f'serving_default/fc{i}/out', (1, s_, n_))
+    gb.op(B.FULLY_CONNECTED, [x, w, -1], [out], S.BuiltinOptions.FullyConnectedOptions,
+          gb._mk(S.FullyConnectedOptionsT, fusedActivationFunction=0,  # pylint: disable=protected-access
+                 keepNumDims=True, weightsFormat=0))
+    outs.append(out)
+  for t_ in gb.g.tensors:
+    t_.quantization = S.QuantizationParametersT()
+  gb.g.outputs = np.array(outs, dtype=np.int32)
+  gb.g.inputs = np.array(gb.g.inputs, dtype=np.int32)
+  mb.m.subgraphs.append(gb.g)
+  sd = S.SignatureDefT()
+  sd.signatureKey = b'serving_default'
+  sd.subgraphIndex = 0
+  sd.inputs, sd.outputs = [], []
+  tm = S.TensorMapT(); tm.name = b'x'; tm.tensorIndex = int(x); sd.inputs.append(tm)
+  for i, t in enumerate(outs):
+    tm = S.TensorMapT(); tm.name = f'y{i}'.encode(); tm.tensorIndex = int(t); sd.outputs.append(tm)
+  mb.m.signatureDefs.append(sd)
+  return mb.finish(), {'n_subgraphs': 1, 'ops': [n_readers]}
